@@ -370,6 +370,30 @@ def call(ex, st, fr, callee, last, args, argops, dest):
             return NotImplemented
         alts = ex_call_local(ex, st, clo, [args[1], v.fields[0]], fr)
         return _map_alts(ex, st, alts, lambda val: val)
+    m = re.match(r"^Result::<.*>::and_then::<.*?(\{closure@.*\})>$", c)
+    if m:
+        _use("Result::and_then (closure executed from its MIR)")
+        v = args[0]
+        if v.variant == 1:
+            return v
+        clo = ex.prog.closures.get(norm_type(m.group(1)))
+        if clo is None:
+            return NotImplemented
+        alts = ex_call_local(ex, st, clo, [args[1], v.fields[0]], fr)
+        return _map_alts(ex, st, alts, lambda val: val)
+    if re.match(r"^Result::<.*>::map_err::<.*>$", c) and isinstance(args[1], E.FnItem):
+        _use("Result::map_err over a function item (Ok passes through, Err(e) becomes Err(f(e)); f resolved like any call)")
+        v = args[0]
+        if v.variant == 0:
+            return v
+        fname = args[1].name
+        flast = re.sub(r"::<[^:]*>$", "", fname).split("::")[-1]
+        if flast not in ex.contracts:
+            return NotImplemented
+        r = ex.contracts[flast](ex, st, fr, fname, [v.fields[0]])
+        if r is NotImplemented:
+            return NotImplemented
+        return E.EnumV("Result", 1, (r,))
     if re.match(r"^Option::<.*>::unwrap_or$", c):
         _use("Option::unwrap_or")
         v = args[0]
